@@ -238,6 +238,26 @@ def judge_state(ctx, case, cfgd, cfg, unode, U, u, shadow, viol, step):
     if len(d) != len(shadow):
         viol("dump", "union-dump-length-differs-from-size", step=step, got=len(d), want=len(shadow))
         return False
+    # the union occupies its size wherever it is written: behind other bytes of a stream and as the element of an
+    # array it gives the bytes it gives alone
+    import io as _io
+
+    try:
+        s_ = _io.BytesIO()
+        # (aligned structures place their padding by the absolute stream position: a multiple of 16 there)
+        p_ = 16 * (1 + len(d) % 3) if cfgd["align"] else 1 + (len(shadow) * 7 + len(d)) % 13
+        s_.write(b"\x5a" * p_)
+        n_ = u.write(s_)
+        tail_ = s_.getvalue()[p_:]
+        arr_ = U[2]([u, u]).dumps()
+    except Exception as e:  # noqa: BLE001
+        viol("dump", f"union-write-away-from-position-0-raises:{type(e).__name__}", step=step, error=lib.exc_sig(e))
+        return False
+    ctx.event("union_writes_at_other_positions_checked")
+    if tail_ != d or n_ != len(d) or arr_ != d + d:
+        viol("dump", "union-written-behind-other-bytes-or-as-array-element-differs-from-its-dump", step=step, alone=d,
+             at_position=p_, written=tail_, returned=n_, as_array_of_two=arr_)
+        return False
     dm, mask, k1 = model.dump_full(unode, want, cfg)
     diffs = engine.bits_differ(d, bytes(shadow), mask)
     if diffs:
